@@ -5,6 +5,7 @@ from harness import gen_cds as G
 from harness.impl_chunk import enc_obj
 
 WARM_TWINS = {"quick": 0.02, "thorough": 0.05}      # engine: call-history twins (harness/warm.py)
+DECOY_TWINS = {"quick": 0.02, "thorough": 0.05}     # engine: decoy twins (harness/decoy.py)
 ID = "C07"
 LEAN_MODULE = "BioCantor.Props.C07"
 DESIGN_REF = "4/C07"
